@@ -318,8 +318,9 @@ class GcodeParser(CommonMixin):  # pylint: disable=too-many-instance-attributes
                 raise ValueError("Checksum provided, but no lineNumber found")
 
         if (self._checksum is not None):
-            # Verify the checksum matches our computation
-            command = self.leadingWhitespace + self.text
+            # Verify the checksum matches our computation.  Leading whitespace is not part of
+            # the checksummed text (Marlin skips it, and stringify() doesn't include it either)
+            command = self.text
             computedChecksum = self.computeChecksum(command)
 
             if (self._checksum != computedChecksum):
